@@ -2,9 +2,9 @@
 // VF-VARIANT: san
 // VF-RULE: E2 product spaces, every index executed. (1) theta-lattice: method x zero-allowing flag x dimension x every theta vector of the lattice {1e-9,1/4,1/2,3/4,1-1e-9}^(n-1) (n<=7), and for 8<=n<=33 every vector that deviates from one of three base vectors (theta==1/2, theta==1/4, theta_i=1/(n-i)) in at most D coordinates to any lattice value; each is pushed through all three update entry points, copied (constructor, clone, assignment) and mutated, and fed back through both probability entry points. (2) probability vectors: every composition of 8 into n positive parts (/8, n<=8) and 12 constructed families with entries down to 1e-9 for every n in 1..33, through the constructor, the frequency setter on a fresh and on a used object, plain and ordered variant. (3) injectivity: per method and n<=7 the images of the whole theta lattice are sorted and scanned for duplicates. (4) the two other users of the global-ratio coding that keep a copy of the vector next to the parameters: every operation history up to depth 4 (thorough 5) over 10 operations on a FullHmmTransitionMatrix (two caching readers, frequency setter with three matrices, two parameter update routes, copy, assignment from another matrix, namespace change; n=2,3) and over 9 operations on a MixtureOfDiscreteDistributions of constants (five parameter update routes incl. a zero theta, three namespaces, copy; n=2,3); after every operation the rows / weights the getters return are compared with the image of the parameters the object reports. (5) every history up to depth 3 (thorough 4) over 9 operations on one Simplex / OrderedSimplex object (method x zero-allowing x n=2..4): single-parameter and list updates (a foreign parameter first in the list), the frequency setter with two admissible vectors and two vectors it refuses (a zero entry, a sum of 1.1), copy; after every operation, refused or not, the probabilities must be the image of the reported parameters (fresh object as reference) and the ordered values the tail sums of the probabilities. A case is non-trivial when n>=2.
 // VF-BOUND: theta in a 5-value lattice instead of (0,1); full lattice only for n<=7 (quick n<=6), beyond that at most D deviating coordinates (quick: D=2 for n<=9 and n in 15..17, D=1 otherwise; thorough: D=2 for every n<=33 and D=3 for n in {8,9,16}); probability vectors from dyadic compositions (n<=8) and 12 families per dimension instead of the whole simplex; all dimensions 1..33 are covered for the families and the deviation lattice; the histories of (4) are bounded in depth (4 / 5), in dimension (2, 3) and in the values written (listed in the harness)
-// VF-LEVEL: bounded-exhaustive check on the real classes: every listed method x dimension x lattice vector is executed; tolerances are forward-error bounds of the documented formulas evaluated in double, derived next to their use; nothing sampled
+// VF-LEVEL: bounded-exhaustive check on the real classes: every listed method x dimension x lattice vector is executed, and every operation history up to the stated depth on a transition matrix, a mixture and a single simplex object (explicit enumeration of histories, each replayed on a fresh object, reference = image of the reported parameters); tolerances are forward-error bounds of the documented formulas evaluated in double, derived next to their use; nothing sampled
 // VF-ASSUME: IEEE double arithmetic with round-to-nearest;; the parameters of a simplex are stored as doubles, so a probability vector is 'returned unchanged to rounding' when it is within the forward error of rounding the parameters (this scales with p_i/p_(i+1) for the local-ratio method);; behaviour between lattice points is not observed
-// VF-TECHNIQUE: exhaustive enumeration of parameter / probability lattices on the real code; normalisation, round trip in both directions, path independence, copy independence, duplicate scan for injectivity
+// VF-TECHNIQUE: exhaustive enumeration of parameter / probability lattices and of bounded operation histories (refused calls included) on the real code; normalisation, round trip in both directions, path independence, copy independence, duplicate scan for injectivity
 // VF-BUDGET_QUICK: 150
 #include "vf.hpp"
 #include <Bpp/Numeric/Prob/Simplex.h>
